@@ -420,14 +420,24 @@ class Engine:
     # ------------------------------------------------------------ exploration
     def apply_fn(self, st, fr, f, args):
         """apply a function value (fn item or closure) to argument values by a nested exploration of
-        its body; returns [(value, [(term, op, val)])] alternatives, or None if the body is unknown.
-        Effects inside the callee are not recorded (used for conversion-style callbacks)."""
+        its body; returns [(value, [(term, op, val)], effects)] alternatives, or None if the body is unknown.
+        The nested exploration continues the caller's effect list, so calls made by the callback (a clock read
+        inside an `and_then` closure) are numbered and recorded in order; each alternative carries its full list."""
         body = None
         env = None
         if f[0] == 'fn':
             body = self.facts.body(mir.callee_name(f[1])) or self.facts.body(f[1]['path'])
             if body is None and mir.callee_name(f[1]) == '<T as std::convert::Into<U>>::into':
                 return None
+            dk = f[1].get('defkind') or ''
+            if body is None and dk.startswith('Ctor('):
+                # a tuple-struct / tuple-variant constructor used as a function (`.map(FdGuard)`, `.map(Some)`)
+                path = f[1]['path']
+                if dk.startswith('Ctor(Variant'):
+                    ty, var = path.rsplit('::', 1)
+                else:
+                    ty, var = path, path.rsplit('::', 1)[-1]
+                return [(('agg', ty, var, tuple(args)), [], None)]
         elif f[0] == 'agg' and isinstance(f[1], str) and f[1].startswith('closure:'):
             body = self.facts.body(f[1][len('closure:'):])
             env = f
@@ -447,18 +457,22 @@ class Engine:
                      inline_filter=self.inline_filter, skip_tracing=self.skip_tracing)
         sub._apply_depth = self._apply_depth + 1
         try:
-            res = sub.run(body, args=call_args, store=store, fid_base=1000 * (self._apply_depth + 1) + st.next_fid)
+            res = sub.run(body, args=call_args, store=store, fid_base=1000 * (self._apply_depth + 1) + st.next_fid,
+                          effects=st.effects)
         except PathLimit:
             return None
         self.inlined |= {body.path} | sub.inlined
-        alts = [(p.value, [(c[0], c[1], c[2]) for c in p.conds]) for p in res if p.kind == 'return']
+        self.opaque |= sub.opaque
+        alts = [(p.value, [(c[0], c[1], c[2]) for c in p.conds], list(p.effects)) for p in res if p.kind == 'return']
         return alts or None
 
     _apply_depth = 0
 
-    def run(self, body, args=None, start_bb=0, store=None, fid_base=0):
+    def run(self, body, args=None, start_bb=0, store=None, fid_base=0, effects=None):
         """explore all paths of `body`; returns list of PathResult"""
         st = State()
+        if effects:
+            st.effects = list(effects)
         st.next_fid = fid_base
         fr = Frame(body, st.next_fid, start_bb)
         st.next_fid += 1
@@ -706,8 +720,11 @@ class Engine:
         """res: a value, or a list of (value, [(term, op, val)]) alternatives"""
         if isinstance(res, list):
             live = []
-            for v, conds in res:
+            for alt in res:
+                v, conds = alt[0], alt[1]
                 s2 = st.copy()
+                if len(alt) > 2 and alt[2] is not None:
+                    s2.effects = list(alt[2])
                 ok = True
                 for (term, op, val) in conds:
                     if not self.add_cond(s2, term, op, val, site):
